@@ -27,7 +27,9 @@ SIMPLE = ["bool", "int", "int8", "int16", "int32", "int64", "uint", "uint8", "ui
           "string", "any", "*int", "*string", "[]int", "[]string", "map[string]int", "[2]bool", "*[]int", "**int", "*[]*string",
           "[]*int8", "map[string]*uint16", "time.Time", "*time.Time", "Inner", "*Inner", "[]Inner", "MyInt", "MyString",
           "MyInt8", "MyUint16", "*MyUint", "[]MyInt8", "map[string]MyUint16", "*any", "[]*any", "struct{}", "map[string]struct{}", "Empty"]
-OPTS = ["", "", "", ",omitempty", ",omitzero", ",omitempty,omitzero"]
+# (the last three: an option spelled with a blank is an UNKNOWN option for encoding/json, which trims nothing: the field is always
+# written; blanks next to the NAME would change the JSON name and are left to gen_types.BLANK_TAGS)
+OPTS = ["", "", "", ",omitempty", ",omitzero", ",omitempty,omitzero", ",omitempty", ",omitzero", "", ", omitempty", ",omitzero ", ",omitempty , omitzero"]
 
 
 # the families of gen_families of the last gen_decls call: family -> bank names (see gen_families)
@@ -260,6 +262,47 @@ def gen_decls(rng, count):
         locs.append(variants)
     flines, fams = gen_families(random.Random(rng.random()), max(3, count // 8))
     lines += flines
+    # TAIL layouts (a generator of their own, drawn last: the declarations above do not depend on them): a struct E embedded BY VALUE
+    # as the LAST field of its embedder M (or, for the neighbours, followed by one sibling), M embedded in O (value / pointer) with
+    # 1-2 SHALLOWER own fields declared after it, now and then O embedded the same way one level further up: in the depth-first
+    # field walk the fields promoted through E (index paths of length 3, 4) are directly followed by a field of O (length 1).
+    # Same rules as above: JSON name = function of the Go name, promoted names disjoint from own names, no redeclaration.
+    trng = random.Random(rng.random())
+    for p in range(max(3, count // 6)):
+        cands = [x for x in infos if x["depth"] <= 3 and not x["redeclared"] and x["visible"]]
+        if not cands:
+            break
+        e = trng.choice(cands)
+        prev = e
+        for lvl, suffix in enumerate(["M", "O", "X"][:trng.choice([2, 2, 2, 3])]):
+            name = "GenTail%d%s" % (p, suffix)
+            visible = dict(prev["visible"])
+            free = [g for g in GO_NAMES if g not in visible]
+            trng.shuffle(free)
+
+            def ownf():
+                g = free.pop()
+                visible[g] = jname(g)
+                t = trng.choice(SIMPLE)
+                if g in PLAIN_NAMES:
+                    return '\t%s %s' % (g, t)
+                return '\t%s %s `json:"%s%s"`' % (g, t, jname(g), trng.choice(OPTS))
+            n_before = trng.randint(0, 2)
+            n_after = (1 if trng.random() < 0.25 else 0) if lvl == 0 else trng.randint(1, 2)
+            if len(free) < n_before + n_after:
+                break
+            fields = [ownf() for _ in range(n_before)]
+            ptr = lvl > 0 and trng.random() < 0.3 and prev["name"][0].isupper()
+            fields.append("\t%s%s" % ("*" if ptr else "", prev["name"]))
+            fields += [ownf() for _ in range(n_after)]
+            lines.append("type %s struct {" % name)
+            lines += fields
+            lines.append("}")
+            lines.append("")
+            info = {"name": name, "embeds": [prev["name"]], "visible": visible, "redeclared": False, "depth": prev["depth"] + 1,
+                    "nfields": len(fields)}
+            infos.append(info)
+            prev = info
     FAMILIES.clear()
     FAMILIES.update(fams)
     lines.append("")
